@@ -164,7 +164,8 @@ def lake_build(targets=('MTfitVerif', 'mtfit_driver')):
             'tail': out.splitlines()[-15:] if rc != 0 else []}
 
 
-AUDIT_TEMPLATE = '''%(imports)s
+AUDIT_TEMPLATE = '''import Lean
+%(imports)s
 open Lean Elab Command in
 run_cmd do
   let env ← getEnv
